@@ -61,13 +61,14 @@ struct ThreadRec {
   const void* sleep_on = nullptr;
   int join_target = -1;      // >=0: the pending operation is join(join_target)
   ThreadRec* join_rec = nullptr;
+  std::condition_variable cv;   // this thread waits here for its grant
   std::thread os;
 };
 
 // One scheduler per op line (an abandoned one keeps its parked threads forever; see harness).
 struct Sched {
   std::mutex mu;
-  std::condition_variable cv;
+  std::condition_variable cv;        // the controller (and a thread creating a child) wait here
   std::vector<ThreadRec*> th;        // index = thread id; 0 = dispatcher, 1.. = workers of the live pool
   std::vector<std::string> trace;    // event tokens
   int active = -1;                   // id of the thread currently allowed to run (-1: controller)
@@ -140,7 +141,7 @@ inline void park(ThreadRec::St st, const void* on = nullptr, int join_target = -
   me->parked = true;
   if (s->active == me->id) s->active = -1;
   s->cv.notify_all();
-  s->cv.wait(lk, [&] { return me->granted; });
+  me->cv.wait(lk, [&] { return me->granted; });
   me->granted = false;
   me->parked = false;
   me->join_target = -1;
